@@ -60,7 +60,24 @@ func execC16(c *child.Ctx, k loggerCase, cj []byte) {
 	}
 	os.WriteFile(filepath.Join(dir, "cfg.json"), []byte(cfgText+"}"), 0644)
 	var extraEnv []string
-	if k.TZ != "" {
+	if strings.HasPrefix(k.TZ, "fixed") {
+		// a zone file with a fixed offset of up to +-23 h: relative to the UTC date the
+		// process then sees the local date it would see in an ordinary zone at another
+		// time of day
+		var hours int
+		fmt.Sscanf(k.TZ, "fixed%d", &hours)
+		zf := filepath.Join(dir, "zone.tzif")
+		off := int32(hours * 3600)
+		b := append([]byte("TZif"), make([]byte, 16)...)
+		counts := []uint32{0, 0, 0, 0, 1, 4}
+		for _, v := range counts {
+			b = append(b, byte(v>>24), byte(v>>16), byte(v>>8), byte(v))
+		}
+		b = append(b, byte(uint32(off)>>24), byte(uint32(off)>>16), byte(uint32(off)>>8), byte(uint32(off)), 0, 0)
+		b = append(b, 'X', 'X', 'X', 0)
+		os.WriteFile(zf, b, 0644)
+		extraEnv = append(extraEnv, "TZ="+zf)
+	} else if k.TZ != "" {
 		extraEnv = append(extraEnv, "TZ="+k.TZ)
 	}
 	ak := appCase{ID: k.ID, StdinMode: "pipe", StdoutMode: "fast", Chunk: k.Chunk, ReaderUs: k.GapUs, Procs: k.Procs, HookProfile: k.Hook}
@@ -127,7 +144,7 @@ func monC16(c *child.Ctx, replay json.RawMessage) {
 			Stdin: []string{"file", "pipe", "pipe", "pipe-close-at-once"}[r.Intn(4)], Chunk: []int{0, 1000, 8096, 100}[r.Intn(4)], GapUs: []int{0, 300, 3000}[r.Intn(3)],
 			Hook: hooks[r.Intn(len(hooks))], Procs: []int{1, 2, 16}[r.Intn(3)], LogEvents: r.Chance(1, 3), NoEventDir: r.Chance(1, 3), NoOldDir: r.Chance(1, 2),
 			// zones in which the local date is behind, equal to or ahead of the UTC date right now
-			TZ: []string{"", "", "UTC", "Etc/GMT+12", "Etc/GMT+8", "Etc/GMT+3", "Etc/GMT-5", "Etc/GMT-10", "Etc/GMT-14", "America/New_York", "Asia/Tokyo"}[r.Intn(11)]}
+			TZ: []string{"", "", "UTC", "Etc/GMT+12", "Etc/GMT+8", "Etc/GMT-10", "Etc/GMT-14", "America/New_York", "Asia/Tokyo", "fixed-23", "fixed-18", "fixed-9", "fixed23", "fixed15"}[r.Intn(14)]}
 		if i < len(sizes) {
 			k.Size = sizes[i]
 		} else if c.Thorough() && r.Chance(1, 40) {
